@@ -272,6 +272,7 @@ def run(chk):
     _boxing_rule(chk, prog)
     _fiberimg_rule(chk, prog)
     _envvalid_rule(chk, prog)
+    _envcount_rule(chk, prog)
 
 
 def _envvalid_rule(chk, prog):
@@ -352,6 +353,92 @@ def _envvalid_rule(chk, prog):
                               "`%s` promotes the image-supplied offset to a trusted one on a path that has not established that %s; "
                               "the interpreter and the collector then index the fiber stack with an unvalidated offset" % (x.text(), what))
     chk.floor(rule, 4)
+
+
+def _envcount_rule(chk, prog):
+    """A JanetFunction is allocated with a trailing array of N environment pointers, but everybody who walks that array
+    - the interpreter's upvalue instructions, the collector, the marshaller - takes the count from
+    def->environments_length.  So wherever a function object gets its definition, N must be that definition's count:
+    derived from it, or compared equal to it (and the function rejected otherwise).  An image that says "0
+    environments" for a definition that needs one makes the collector read past the object."""
+    rule = "C10-ENVCOUNT"
+    chk.rule(rule, "a function object is given a definition only where its environment array length equals def->environments_length")
+    full = Program.load("default", units=["marsh.c", "vm.c", "bytecode.c"])
+    n = 0
+    for fn in full.all_funcs():
+        sites = [x for x in fn.nodes if x.k == "asg" and x.op == "=" and x.kids[0].k == "mem" and x.kids[0].field == "def"
+                 and x.kids[0].rec == "JanetFunction" and strip_casts(x.kids[1]).v != 0]
+        if not sites:
+            continue
+        chk.analysed(fn)
+        for site in sites:
+            n += 1
+            chk.instance(rule)
+            fvar = strip_casts(site.kids[0].kids[0]).text()
+            dvar = strip_casts(site.kids[1]).text()
+            # allocation of the function object and its count expression
+            count = None
+            for x in fn.nodes:
+                tgt = rhs = None
+                if x.k == "vardecl" and x.kids:
+                    tgt, rhs = x.name, strip_casts(x.kids[0])
+                elif x.k == "asg" and x.op == "=" and is_ref(x.kids[0]):
+                    tgt, rhs = x.kids[0].name, strip_casts(x.kids[1])
+                if tgt == fvar and rhs is not None and rhs.k == "call" and rhs.callee == "janet_gcalloc" and len(rhs.args) > 1:
+                    size = rhs.args[1]
+                    muls = [y for y in size.walk() if y.k == "bin" and y.op == "*"]
+                    count = "0"
+                    for m in muls:
+                        for k in m.kids:
+                            k = strip_casts(k)
+                            if k.k in ("ref", "mem"):
+                                count = k.text()
+            if count is None:
+                raise AnalysisBroken("%s: allocation of `%s` not found" % (fn.name, fvar))
+            want = dvar + "->environments_length"
+
+            def derived():
+                for x in fn.nodes:
+                    tgt = rhs = None
+                    if x.k == "vardecl" and x.kids:
+                        tgt, rhs = x.name, strip_casts(x.kids[0])
+                    elif x.k == "asg" and x.op == "=" and is_ref(x.kids[0]):
+                        tgt, rhs = x.kids[0].name, strip_casts(x.kids[1])
+                    if tgt == count and rhs is not None and rhs.text().replace(" ", "") == want:
+                        return True
+                return False
+            if derived():
+                chk.ok(rule, "%s: `%s` sized by %s" % (fn.name, fvar, want))
+                continue
+            # otherwise: every path from the assignment to a return must establish count == def->environments_length
+            def transfer(st, x):
+                if x is site:
+                    return st | {"assigned"}
+                return st
+
+            def edge(st, blk, succ, cond, truth):
+                c = flow.compare_of(cond, truth)
+                if c is None or c[2] is None or c[1] != "==":
+                    return st
+                a, b = strip_casts(c[0]).text().replace(" ", ""), strip_casts(c[2]).text().replace(" ", "")
+                if {a, b} == {want, count}:
+                    return st | {"rel"}
+                return st
+            IN, OUT, T = flow.forward_paths(fn, frozenset(), transfer, edge=edge)
+            bad = None
+            for b, kind in flow.exits(fn):
+                if kind == "return" and b.id in OUT:
+                    for ps in OUT[b.id]:
+                        if "assigned" in ps and "rel" not in ps:
+                            bad = b
+            if bad is None:
+                chk.ok(rule, "%s: %s == %s checked on every path" % (fn.name, count, want))
+            else:
+                chk.violation(rule, fn.tu.name, fn.name, "%s->def" % fvar, site.loc,
+                              "`%s` gives a function object allocated with %s environment slots a definition whose "
+                              "environments_length is never compared with that count: the collector and the upvalue instructions "
+                              "index the array by the definition's count and read past the object" % (site.text(), count))
+    chk.floor(rule, 3, n)
 
 
 # ------------------------------------------------------------------------------------------------
